@@ -52,8 +52,9 @@ def validate_exec_traces(ctx, execs, invs, name=None):
     for e in execs:
         try:
             ts, sk = exec_trace.convert_all(e)
-        except exec_trace.Unsupported:
+        except exec_trace.Unsupported as u:
             skipped += 1
+            exec_trace.note_skip(u)
             continue
         skipped += sk
         for t in ts:
@@ -61,6 +62,7 @@ def validate_exec_traces(ctx, execs, invs, name=None):
             scens.append(scen_of(e))
     ctx.notes["exec_traces_reinvocations"] = sum(1 for t in traces if t["cf"]["pre"])
     ctx.notes["exec_traces_skipped"] = skipped
+    ctx.notes["exec_traces_skip_reasons"] = dict(sorted(exec_trace.SKIP_REASONS.items(), key=lambda kv: -kv[1]))
     if not traces:
         return
     cfg = ["SPECIFICATION TraceSpec", "CONSTANTS",
